@@ -20,7 +20,8 @@ PROP_FILE = 'Props/C08.v'
 THEOREMS = ['C08_segmentation_independent', 'C08_connection_state_independent', 'C08_matches_reference',
             'C08_lockstep', 'C08_truncated_is_error', 'C08_no_content_codes_are_the_sources']
 TRUSTED = [
-    'hand-written model coq/Model/{PyText,Chunked,HttpMsg}.v + coq/Lib/Conn.v (asyncio.StreamReader.read/readline, 64 KiB line limit) of '
+    'harness/translate/consts.py (fail-closed AST evaluator of constant definitions) -> coq/Gen/Consts.v, regenerated every run; Proofs/ConstsAgree.v proves the model\'s constants equal to it for every value',
+        'hand-written model coq/Model/{PyText,Chunked,HttpMsg}.v + coq/Lib/Conn.v (asyncio.StreamReader.read/readline, 64 KiB line limit) of '
     'wpull/protocol/http/{stream,chunked,request,util}.py, wpull/namevalue.py, wpull/network/connection.py: tied to the code by the '
     'vm_compute correspondence of this check (every generated (stream, segmentation) pair, all observables incl. connection state and notified bytes)',
     'concrete Gallina models of str.strip/title/lower, bytes.strip, int(text, 10/16): compared with the running interpreter on all 256 latin-1 '
@@ -935,4 +936,6 @@ LEVEL_NOTE = ('Tie detail: the segmentation oracle handed to the model is comput
               'last body byte must not stay on an open connection". Not covered by wf_response (model behaviour still segmentation independent and in correspondence): Transfer-Encoding lists such as '
               '"gzip, chunked", invalid Content-Length (wpull reads until close), lines over the caps; a chunked message cut after the last-chunk '
               'line (only trailers missing) is accepted by wpull; a 64 KiB+ chunk CRLF / trailer line raises a bare ValueError (C09).')
-TECHNIQUE = 'Coq proof over a segmented-connection model with a universally quantified segmentation oracle; vm_compute correspondence with the real readers over a scripted connection'
+TECHNIQUE = ('Coq proof over a segmented-connection model with a universally quantified segmentation oracle; constants regenerated from the source '
+             '(translator) and proved equal to the model\'s; vm_compute correspondence with the real readers over a scripted connection, the model '
+             'predicting every read from the scripted segments')
